@@ -199,7 +199,7 @@ def run(tier):
     for _ in range(n_rand // 3):
         models.append(('redefine', redefine_model(r)))
 
-    cases = [{'model': m, 'globals': {'x': interp.vflt(0.0), 'y': ['null'], 'eo': ['obj', 1, []]}, 'max': mx, 'twice': True} for _, m in models]
+    cases = [{'model': m, 'globals': {'x': interp.vflt(0.0), 'y': ['null'], 'eo': ['obj', 1, []]}, 'max': mx, 'twice': True, 'rerun_same_options': True} for _, m in models]
     impl = core.run_impl('run_script', cases)
 
     dist = {}
@@ -215,6 +215,11 @@ def run(tier):
             continue
         if res.get('repeat_same') is False:
             chk.oracle_fail.append({'class': 'second-run-differs', 'model': m})
+            continue
+        sec = res.get('second')        # the same model executed again with the SAME options object and equal globals
+        if sec is not None and any(sec.get(k) != res.get(k) for k in ('res', 'rt', 'log', 'count')):
+            chk.oracle_fail.append({'class': 'second-run-with-the-same-options-object-differs', 'model': m,
+                                    'first': {k: res.get(k) for k in ('res', 'rt', 'log', 'count')}, 'second': sec})
             continue
         try:
             exp = ref_run(m, mx)
